@@ -27,8 +27,10 @@ class ProgGen:
     """Terminating programs in a core fragment.  Every `println` site carries a
     unique token so that each output line is attributable to one step."""
 
-    def __init__(self, rng: Rng, size=12, tag="p", allow_throw=True, wide=None):
+    def __init__(self, rng: Rng, size=12, tag="p", allow_throw=True, wide=None, shell=False):
         self.r = rng
+        # opt-in: calls of a harmless external command (`true`), a step that blocks in a system call
+        self.shell = shell
         # "wide" programs also use the prelude's Garden-implemented methods (closures called from
         # library loops), dicts, Result, tuple destructuring in `for`, assert; decided per program
         self.wide = rng.fork("wide").chance(0.5) if wide is None else wide
@@ -328,6 +330,9 @@ class ProgGen:
             sc.add("I", v)
             return (f"let {cl} = fun({y}) {{ ({y} + {e1}) % 1000 }} "
                     f"let {v} = {cl}({e2})")
+        if k == 15 and self.shell and r.chance(0.5):
+            t = self.token()
+            return (f"match shell::run(\"true\", []) {{ Ok(_) => println(\"{t}\") Err(_) => println(\"{t}\") }}")
         if k == 15 and self.wide:
             j = r.below(4)
             if j == 0:
@@ -359,6 +364,8 @@ class ProgGen:
     def gen_defs(self):
         r = self.r
         defs = []
+        if self.shell:
+            defs.append('import "__shell.gdn" as shell')
         if r.chance(0.6):
             sname = f"S{self.tag}"
             fields = ["x", "y"][: r.randint(1, 2)]
@@ -427,9 +434,9 @@ class ProgGen:
         return stmts
 
 
-def gen_prog(rng, size=12, tag="p", wide=None):
+def gen_prog(rng, size=12, tag="p", wide=None, shell=False):
     """Returns (definitions source, toplevel statements list)."""
-    g = ProgGen(rng, size=size, tag=tag, wide=wide)
+    g = ProgGen(rng, size=size, tag=tag, wide=wide, shell=shell)
     defs = g.gen_defs()
     main = g.gen_main()
     return "\n".join(defs), main
